@@ -692,6 +692,16 @@ func mangledField(w *World, m *machine, field string) bool {
 				if e.Kind == "store" && e.LV.Op == "sel" && e.LV.S == field && stripConv(e.Val).Op == "call" && makesMangled(w.funcByKey(stripConv(e.Val).S)) {
 					return true
 				}
+				// the list grown by append(field, mangled...) instead of filled by index
+				if v := stripConv(e.Val); e.Kind == "store" && e.LV.Op == "sel" && e.LV.S == field && v.Op == "builtin" && v.S == "append" && len(v.A) == 2 {
+					if b := stripConv(v.A[0]); b.Op == "sel" && b.S == field {
+						for _, x := range elementsOf(p, v.A[1]) {
+							if isMangled(p, x) {
+								return true
+							}
+						}
+					}
+				}
 				if e.Kind == "store" && e.LV.Op == "elem" && isMangled(p, e.Val) {
 					b := stripConv(e.LV.A[0])
 					if b.Op == "sel" && b.S == field {
